@@ -282,7 +282,11 @@ class Mailbox:
                     self.send(x)
                 except Exception as e:
                     # Inform the source we're going down
-                    iterable.throw(e)
+                    try:
+                        iterable.throw(e)
+                    except StopIteration:
+                        # The source had nothing more to give; e is still what went wrong
+                        pass
                     raise
                 i += 1
 
@@ -517,7 +521,11 @@ def divide_outputs(
                         mailboxes[d].send(x)
             except Exception as e:
                 # Inform the source we're going down
-                source.throw(e)
+                try:
+                    source.throw(e)
+                except StopIteration:
+                    # The source had nothing more to give; e is still what went wrong
+                    pass
                 raise
             i += 1
 
@@ -527,5 +535,11 @@ def divide_outputs(
         if not isinstance(e, MailboxKilled):
             raise
     else:
-        for m in mbs_to_kill:
-            m.close()
+        try:
+            for m in mbs_to_kill:
+                m.close()
+        except MailboxKilled as e:
+            # One of the outputs was killed after its last message (e.g. its saver failed):
+            # do not leave the readers of the other outputs waiting for their end marker
+            for m in mbs_to_kill:
+                m.kill_from_exception(e, reraise=False)
